@@ -12,7 +12,7 @@ structure Good (b : Broker) : Prop where
   inr : ∀ p ∈ b.conns, inRange b.n p.1 = true ∧ inRange b.n p.2 = true ∧ p.1 ≠ p.2
 
 theorem good_new (n : Nat) : Good (Broker.new n) := by
-  sorry
+  constructor <;> simp [Broker.new]
 
 /-- `AddConnection` as a set operation: afterwards `q` is connected iff it was before, or it is
 the requested pair and the request is legal (distinct, both indices in range). -/
@@ -20,29 +20,138 @@ theorem add_spec (b : Broker) (hg : Good b) (s r : Int) :
     Good (add b s r).1 ∧ (add b s r).1.n = b.n ∧ (add b s r).1.latest = b.latest ∧
     ∀ q, q ∈ (add b s r).1.conns ↔
       (q ∈ b.conns ∨ (q = (s, r) ∧ s ≠ r ∧ inRange b.n s = true ∧ inRange b.n r = true)) := by
-  sorry
+  unfold add
+  split
+  · next h => exact ⟨hg, rfl, rfl, fun q => by simp [h]⟩
+  split
+  · next h1 h =>
+    refine ⟨hg, rfl, rfl, fun q => ?_⟩
+    simp at h; simp [h]
+  split
+  · next h1 h2 h =>
+    refine ⟨hg, rfl, rfl, fun q => ?_⟩
+    simp at h; simp [h]
+  split
+  · next h1 h2 h3 h =>
+    refine ⟨hg, rfl, rfl, fun q => ?_⟩
+    simp at h
+    constructor
+    · exact Or.inl
+    · rintro (hq | ⟨rfl, _⟩)
+      · exact hq
+      · exact h
+  · next h1 h2 h3 h =>
+    simp at h2 h3 h
+    refine ⟨⟨?_, ?_, ?_⟩, rfl, rfl, fun q => ?_⟩
+    · simp only
+      rw [List.nodup_append]
+      refine ⟨hg.nodup, by simp, ?_⟩
+      intro a ha c hc
+      simp at hc
+      subst hc
+      intro hac; subst hac; exact h ha
+    · simp [hg.count_eq]
+    · intro p hp
+      simp only [List.mem_append, List.mem_singleton] at hp
+      rcases hp with hp | rfl
+      · exact hg.inr p hp
+      · exact ⟨h3, h2, h1⟩
+    · simp only [List.mem_append, List.mem_singleton]
+      constructor
+      · rintro (hq | rfl)
+        · exact Or.inl hq
+        · exact Or.inr ⟨rfl, h1, h3, h2⟩
+      · rintro (hq | ⟨rfl, _⟩)
+        · exact Or.inl hq
+        · exact Or.inr rfl
 
 /-- `DeleteConnection` as a set operation. -/
 theorem del_spec (b : Broker) (hg : Good b) (s r : Int) :
     Good (del b s r).1 ∧ (del b s r).1.n = b.n ∧ (del b s r).1.latest = b.latest ∧
     ∀ q, q ∈ (del b s r).1.conns ↔ (q ∈ b.conns ∧ ¬ (q = (s, r) ∧ inRange b.n r = true)) := by
-  sorry
+  unfold del
+  split
+  · next h =>
+    refine ⟨hg, rfl, rfl, fun q => ?_⟩
+    simp at h; simp [h]
+  split
+  · next h1 h =>
+    simp at h1 h
+    refine ⟨⟨?_, ?_, ?_⟩, rfl, rfl, fun q => ?_⟩
+    · exact hg.nodup.erase _
+    · simp only
+      rw [List.length_erase_of_mem h, hg.count_eq]
+      have := List.length_pos_of_mem h
+      omega
+    · intro p hp
+      exact hg.inr p (List.mem_of_mem_erase hp)
+    · simp only
+      rw [hg.nodup.mem_erase_iff]
+      simp [h1, and_comm]
+  · next h1 h =>
+    simp at h1 h
+    refine ⟨hg, rfl, rfl, fun q => ?_⟩
+    constructor
+    · intro hq
+      refine ⟨hq, ?_⟩
+      rintro ⟨rfl, _⟩
+      exact h hq
+    · exact fun hq => hq.1
 
 theorem stop_spec (b : Broker) : Good (stopAll b) ∧ (stopAll b).conns = [] ∧ (stopAll b).n = b.n := by
-  sorry
+  refine ⟨⟨?_, ?_, ?_⟩, rfl, rfl⟩ <;> simp [stopAll]
 
 /-- a request (list of pairs) applied with `add`: union with the legal pairs of the request -/
 theorem applyAll_add_spec (b : Broker) (hg : Good b) (ps : List (Int × Int)) :
     Good (applyAll add b ps) ∧ (applyAll add b ps).n = b.n ∧
     ∀ q, q ∈ (applyAll add b ps).conns ↔
       (q ∈ b.conns ∨ (q ∈ ps ∧ q.1 ≠ q.2 ∧ inRange b.n q.1 = true ∧ inRange b.n q.2 = true)) := by
-  sorry
+  induction ps generalizing b with
+  | nil => exact ⟨hg, rfl, fun q => by simp [applyAll]⟩
+  | cons p ps ih =>
+    obtain ⟨s, r⟩ := p
+    obtain ⟨hg1, hn1, _, hm1⟩ := add_spec b hg s r
+    obtain ⟨hg2, hn2, hm2⟩ := ih (add b s r).1 hg1
+    refine ⟨hg2, hn2.trans hn1, fun q => ?_⟩
+    show q ∈ (applyAll add (add b s r).1 ps).conns ↔ _
+    rw [hm2, hm1, hn1]
+    simp only [List.mem_cons]
+    constructor
+    · rintro ((hq | ⟨rfl, h1, h2, h3⟩) | ⟨h0, h1, h2, h3⟩)
+      · exact Or.inl hq
+      · exact Or.inr ⟨Or.inl rfl, h1, h2, h3⟩
+      · exact Or.inr ⟨Or.inr h0, h1, h2, h3⟩
+    · rintro (hq | ⟨rfl | h0, h1, h2, h3⟩)
+      · exact Or.inl (Or.inl hq)
+      · exact Or.inl (Or.inr ⟨rfl, h1, h2, h3⟩)
+      · exact Or.inr ⟨h0, h1, h2, h3⟩
 
 /-- a request applied with `del`: difference -/
 theorem applyAll_del_spec (b : Broker) (hg : Good b) (ps : List (Int × Int)) :
     Good (applyAll del b ps) ∧ (applyAll del b ps).n = b.n ∧
     ∀ q, q ∈ (applyAll del b ps).conns ↔ (q ∈ b.conns ∧ ¬ (q ∈ ps ∧ inRange b.n q.2 = true)) := by
-  sorry
+  induction ps generalizing b with
+  | nil => exact ⟨hg, rfl, fun q => by simp [applyAll]⟩
+  | cons p ps ih =>
+    obtain ⟨s, r⟩ := p
+    obtain ⟨hg1, hn1, _, hm1⟩ := del_spec b hg s r
+    obtain ⟨hg2, hn2, hm2⟩ := ih (del b s r).1 hg1
+    refine ⟨hg2, hn2.trans hn1, fun q => ?_⟩
+    show q ∈ (applyAll del (del b s r).1 ps).conns ↔ _
+    rw [hm2, hm1, hn1]
+    simp only [List.mem_cons]
+    constructor
+    · rintro ⟨⟨hq, h1⟩, h2⟩
+      refine ⟨hq, ?_⟩
+      rintro ⟨rfl | h0, h3⟩
+      · exact h1 ⟨rfl, h3⟩
+      · exact h2 ⟨h0, h3⟩
+    · rintro ⟨hq, h1⟩
+      refine ⟨⟨hq, ?_⟩, ?_⟩
+      · rintro ⟨rfl, h3⟩
+        exact h1 ⟨Or.inl rfl, h3⟩
+      · rintro ⟨h0, h3⟩
+        exact h1 ⟨Or.inr h0, h3⟩
 
 /-- set-theoretic specification of a whole request history: membership of pair `q`
 (`Op.dist` does not change connections) -/
@@ -67,6 +176,81 @@ def runHist : Broker → List Op → Broker
   | b, [] => b
   | b, o :: os => runHist (step b o).1 os
 
+/-- `SetCoupling` as a set operation (the `.couple` clause of `specStep`) -/
+theorem setCoupling_spec (b : Broker) (hg : Good b) (m : Nat) :
+    Good (setCoupling b m) ∧ (setCoupling b m).n = b.n ∧
+    ∀ q, q ∈ (setCoupling b m).conns ↔ specStep b.n q (q ∈ b.conns) (.couple m) := by
+  unfold setCoupling specStep
+  simp only
+  by_cases h3 : m = 3
+  · have h2 : ¬ m = 2 := by omega
+    simp only [h3, if_true]
+    obtain ⟨hg1, hn1, hm1⟩ := applyAll_add_spec b hg (evenPairs b.n)
+    obtain ⟨hg2, hn2, hm2⟩ := applyAll_del_spec _ hg1
+      ((evenPairs b.n).map fun (a, c) => (c, a))
+    refine ⟨by simpa using hg2, by simpa [hn1] using hn2, fun q => ?_⟩
+    have := hm2 q
+    rw [hm1, hn1] at this
+    simpa using this
+  · simp only [h3, if_false]
+    obtain ⟨hg1, hn1, hm1⟩ := applyAll_del_spec b hg (evenPairs b.n)
+    by_cases h2 : m = 2
+    · simp only [h2, if_true]
+      obtain ⟨hg2, hn2, hm2⟩ := applyAll_add_spec _ hg1
+        ((evenPairs b.n).map fun (a, c) => (c, a))
+      refine ⟨hg2, hn2.trans hn1, fun q => ?_⟩
+      have := hm2 q
+      rw [hm1, hn1] at this
+      exact this
+    · simp only [h2, if_false]
+      obtain ⟨hg2, hn2, hm2⟩ := applyAll_del_spec _ hg1
+        ((evenPairs b.n).map fun (a, c) => (c, a))
+      refine ⟨hg2, hn2.trans hn1, fun q => ?_⟩
+      have := hm2 q
+      rw [hm1, hn1] at this
+      exact this
+
+theorem distribute_conns (b : Broker) (prim : List (List Int)) :
+    (distribute b prim).1 = { b with latest := prim } := by
+  unfold distribute
+  simp only
+  split
+  · rfl
+  · split <;> rfl
+
+/-- one request preserves the invariant and acts on membership as `specStep` -/
+theorem step_spec (b : Broker) (hg : Good b) (o : Op) :
+    Good (step b o).1 ∧ (step b o).1.n = b.n ∧
+    ∀ q, q ∈ (step b o).1.conns ↔ specStep b.n q (q ∈ b.conns) o := by
+  cases o with
+  | add ps => exact applyAll_add_spec b hg ps
+  | del ps => exact applyAll_del_spec b hg ps
+  | stop =>
+    obtain ⟨h1, h2, h3⟩ := stop_spec b
+    exact ⟨h1, h3, fun q => by simp [step, h2, specStep]⟩
+  | couple m => exact setCoupling_spec b hg m
+  | dist prim =>
+    show Good (distribute b prim).1 ∧ (distribute b prim).1.n = b.n ∧
+      ∀ q, q ∈ (distribute b prim).1.conns ↔ q ∈ b.conns
+    rw [distribute_conns]
+    exact ⟨⟨hg.nodup, hg.count_eq, hg.inr⟩, rfl, fun q => Iff.rfl⟩
+
+theorem specStep_congr (n : Nat) (q : Int × Int) (a a' : Prop) (h : a ↔ a') (o : Op) :
+    specStep n q a o ↔ specStep n q a' o := by
+  have : a = a' := propext h
+  rw [this]
+
+theorem runHist_spec (n : Nat) (ops : List Op) (b : Broker) (hg : Good b) (hn : b.n = n)
+    (acc : Int × Int → Prop) (hacc : ∀ q, q ∈ b.conns ↔ acc q) :
+    Good (runHist b ops) ∧ ∀ q, q ∈ (runHist b ops).conns ↔ specHist n q (acc q) ops := by
+  induction ops generalizing b acc with
+  | nil => exact ⟨hg, hacc⟩
+  | cons o os ih =>
+    obtain ⟨hg1, hn1, hm1⟩ := step_spec b hg o
+    exact ih (step b o).1 hg1 (hn1.trans hn) (fun q => specStep n q (acc q) o) (fun q => by
+      rw [hm1 q, hn]
+      exact specStep_congr n q _ _ (hacc q) o)
+
 /-- **C09_set_semantics**: after any sequence of add / delete / stop-coupling / err-fb-coupling
 requests (arbitrary, also out-of-range, negative, repeated or self indices), interleaved with
 distributions, the connection set equals the set-theoretic result; adds and deletes are
@@ -75,7 +259,8 @@ idempotent, self connections ignored, out-of-range indices never take effect; th
 theorem C09_set_semantics (n : Nat) (ops : List Op) :
     Good (runHist (Broker.new n) ops) ∧
     ∀ q, q ∈ (runHist (Broker.new n) ops).conns ↔ specHist n q False ops := by
-  sorry
+  exact runHist_spec n ops (Broker.new n) (good_new n) rfl (fun _ => False)
+    (fun q => by simp [Broker.new])
 
 /-- **count_eq_card**: the fast-path counter of `Distribute` is the number of live connections,
 so skipping distribution when it is zero is sound. -/
@@ -86,19 +271,97 @@ theorem count_eq_card (n : Nat) (ops : List Op) :
 /-- **C09_report_eq_used**: the state reported to clients is exactly the set `Distribute` uses. -/
 theorem C09_report_eq_used (b : Broker) (rx : Int) (s : Int) :
     s ∈ sourcesOf b rx ↔ (s, rx) ∈ reported b := by
-  sorry
+  simp [sourcesOf, reported]
+
+theorem gather_some (latest : List (List Int)) (ss : List Int)
+    (h : ∀ s ∈ ss, 0 ≤ s ∧ s.toNat < latest.length) :
+    gather latest ss = some (ss.flatMap fun s => latest[s.toNat]?.getD []) := by
+  induction ss with
+  | nil => rfl
+  | cons s ss ih =>
+    have hs := h s (by simp)
+    have := ih (fun x hx => h x (by simp [hx]))
+    simp [gather, framesOf, hs.1, this, List.getElem?_eq_getElem hs.2]
+
+/-- under in-range sources the per-receiver loop of `Distribute` succeeds and its result is
+characterised entry by entry -/
+theorem distRx_some (b : Broker) (latest : List (List Int))
+    (h : ∀ p ∈ b.conns, 0 ≤ p.1 ∧ p.1.toNat < latest.length) (rxs : List Nat) :
+    ∃ m, distRx b latest rxs = some m ∧
+      ∀ (rx : Nat) (fr : List Int), (rx, fr) ∈ m ↔
+        (rx ∈ rxs ∧ sourcesOf b rx ≠ [] ∧
+          fr = sortInts ((sourcesOf b rx).flatMap fun s => latest[s.toNat]?.getD [])) := by
+  induction rxs with
+  | nil => exact ⟨[], rfl, by simp⟩
+  | cons r rs ih =>
+    obtain ⟨m, hm, hc⟩ := ih
+    have hsrc : ∀ s ∈ sourcesOf b r, 0 ≤ s ∧ s.toNat < latest.length := by
+      intro s hs
+      have := (C09_report_eq_used b r s).1 hs
+      exact h _ this
+    have hgat := gather_some latest _ hsrc
+    by_cases he : sourcesOf b r = []
+    · refine ⟨m, by simp [distRx, hm, he], fun rx fr => ?_⟩
+      rw [hc]
+      constructor
+      · rintro ⟨h1, h2, h3⟩
+        exact ⟨List.mem_cons_of_mem _ h1, h2, h3⟩
+      · rintro ⟨h1, h2, h3⟩
+        rcases List.mem_cons.1 h1 with rfl | h1
+        · exact absurd he h2
+        · exact ⟨h1, h2, h3⟩
+    · refine ⟨(r, sortInts ((sourcesOf b r).flatMap fun s => latest[s.toNat]?.getD [])) :: m,
+        by simp [distRx, hm, he, hgat], fun rx fr => ?_⟩
+      rw [List.mem_cons, hc]
+      constructor
+      · rintro (h0 | ⟨h1, h2, h3⟩)
+        · obtain ⟨rfl, rfl⟩ := Prod.mk.inj h0
+          exact ⟨List.mem_cons_self, he, rfl⟩
+        · exact ⟨List.mem_cons_of_mem _ h1, h2, h3⟩
+      · rintro ⟨h1, h2, h3⟩
+        rcases List.mem_cons.1 h1 with rfl | h1
+        · exact Or.inl (by rw [h3])
+        · exact Or.inr ⟨h1, h2, h3⟩
+
+theorem good_sources_inr (b : Broker) (hg : Good b) (prim : List (List Int))
+    (hl : prim.length = b.n) : ∀ p ∈ b.conns, 0 ≤ p.1 ∧ p.1.toNat < prim.length := by
+  intro p hp
+  have := (hg.inr p hp).1
+  simp [inRange] at this
+  omega
 
 /-- **C09_no_oob**: under the invariant, `Distribute` never indexes outside the primary table
 (one frame list per channel). -/
 theorem C09_no_oob (b : Broker) (hg : Good b) (prim : List (List Int)) (hl : prim.length = b.n) :
     (distribute b prim).2 ≠ DistRes.panic := by
-  sorry
+  obtain ⟨m, hm, _⟩ := distRx_some b prim (good_sources_inr b hg prim hl) (List.range b.n)
+  unfold distribute
+  simp only
+  split
+  · simp
+  · rw [hm]; simp
 
 /-- multiset equality of integer lists, as equal counts -/
 def SameMultiset (a b : List Int) : Prop := ∀ x, a.count x = b.count x
 
+theorem insertSorted_count (x y : Int) (l : List Int) :
+    (insertSorted x l).count y = (x :: l).count y := by
+  induction l with
+  | nil => rfl
+  | cons z zs ih =>
+    unfold insertSorted
+    split
+    · rfl
+    · simp only [List.count_cons] at ih ⊢
+      rw [ih]; omega
+
 theorem sortInts_perm (xs : List Int) : SameMultiset (sortInts xs) xs := by
-  sorry
+  intro y
+  induction xs with
+  | nil => rfl
+  | cons x xs ih =>
+    show (insertSorted x (sortInts xs)).count y = _
+    rw [insertSorted_count, List.count_cons, List.count_cons, ih]
 
 /-- **C09_distribute_exact**: when any primary exists, every receiver with at least one incoming
 connection gets exactly the multiset union of its sources' primary frames (sorted), and a
@@ -110,7 +373,22 @@ theorem C09_distribute_exact (b : Broker) (hg : Good b) (prim : List (List Int))
         sourcesOf b rx ≠ [] ∧ rx < b.n ∧
         SameMultiset fr ((sourcesOf b rx).flatMap fun s => prim[s.toNat]?.getD [])) ∧
       (∀ rx : Nat, rx < b.n → sourcesOf b rx ≠ [] → ∃ fr, (rx, fr) ∈ m) := by
-  sorry
+  obtain ⟨m, hm, hc⟩ := distRx_some b prim (good_sources_inr b hg prim hl) (List.range b.n)
+  unfold distribute
+  simp only
+  by_cases h0 : b.count = 0
+  · have hnil : b.conns = [] := by
+      have := hg.count_eq
+      rw [h0] at this
+      exact List.eq_nil_of_length_eq_zero (by omega)
+    refine ⟨[], by simp [h0], by simp, fun rx _ hne => ?_⟩
+    exact absurd (by simp [sourcesOf, hnil]) hne
+  · refine ⟨m, by simp [h0, hp, hm], fun rx fr hmem => ?_, fun rx hrx hne => ?_⟩
+    · obtain ⟨h1, h2, h3⟩ := (hc rx fr).1 hmem
+      refine ⟨h2, List.mem_range.1 h1, ?_⟩
+      rw [h3]
+      exact sortInts_perm _
+    · exact ⟨_, (hc rx _).2 ⟨List.mem_range.2 hrx, hne, rfl⟩⟩
 
 /-- non-vacuity: a small history reaches a state with connections where `Good` holds -/
 example : (runHist (Broker.new 4) [.add [(0, 1), (2, 1), (9, 1), (1, 1)], .del [(2, 1)]]).conns = [(0, 1)] := by
